@@ -70,6 +70,7 @@ def gen_l1_inputs(run, pkgs, n_malformed):
                 hdocs.append(ifc["hdr_line"] + "\n")
             for m in ifc["methods"]:
                 docs.append("\n".join(rg.doc_text_lines(m["doc_lines"])) + "\n")
+    wf = {"docs": set(docs), "hdocs": set(hdocs), "tags": set(tags)}
     for d in list(docs[:200]):
         # single-edit mutants of well-formed comments
         for _ in range(2):
@@ -105,7 +106,7 @@ def gen_l1_inputs(run, pkgs, n_malformed):
         kvs.append(body)
     tags += ['`shoot:"alias=a_b" json:"x"`', '`json:"x,omitempty" shoot:"alias=Z9"`', "`shoot:\"alias=\"`", "``", "`shoot:\"x\"`",
              '`shoot:"alias=a-b"`', '`a:"b" shoot:"alias=q"`', '`shoot: "alias=q"`', '` shoot:"alias=sp"`']
-    return docs, hdocs, tags, kvs
+    return docs, hdocs, tags, kvs, wf
 
 
 def coq_path_result(r):
@@ -161,7 +162,7 @@ def probe_calls_robust(probe, calls):
 
 def check_l1(run, probe, pkgs):
     """returns (calls compared, mismatching calls) ; (0, []) with run.l1_skipped set when the probe is unavailable"""
-    docs, hdocs, tags, kvs = gen_l1_inputs(run, pkgs, 4000 if run.thorough() else 900)
+    docs, hdocs, tags, kvs, wf = gen_l1_inputs(run, pkgs, 4000 if run.thorough() else 900)
     calls = []
     for d in docs:
         if not fatal_path(d):
@@ -193,7 +194,13 @@ def check_l1(run, probe, pkgs):
             ctor = {"parseKV": "DKV", "parseAlias": "DAlias", "parseHeaders": "DHeaders"}[fn]
             terms.append("%s %s %s" % (ctor, a, rg.coq_pairs(sorted((r[0] or {}).items()))))
     mism = coq_shards(run, "c06l1", terms, "dmismatches", "dcase", shard=600)
-    return len(calls), [{"call": calls[i], "go": res[i]} for i, _ in mism]
+
+    def in_grammar(call):
+        fn, args = call
+        return ((fn in ("parsePath", "parseAlias") and args[0] in wf["docs"]) or (fn == "parseHeaders" and args[0] in wf["hdocs"])
+                or (fn == "parseFieldAlias" and args[0] in wf["tags"]))
+    all_m = [{"call": calls[i], "go": res[i], "in_grammar": in_grammar(calls[i])} for i, _ in mism]
+    return len(calls), all_m
 
 
 def check_std(run, restprobe):
@@ -495,7 +502,9 @@ def main(run):
         for x in std_mism[:3]:
             run.violation({"kind": "correspondence-broken", "correspondence": "L0:C06:restprobe vs Corr/RestCorr.v (join_decoded/canon/dec)",
                            "call": x["call"], "go": x["go"]}, no_input=True)
-        for x in l1_mism[:3]:
+        # a disagreement on a comment / tag of the grammar is reported; one on the malformed stream only (text the
+    # grammar never produces) does not make the check fail: it is recorded in the evidence
+    for x in [y for y in l1_mism if y["in_grammar"]][:3]:
             run.violation({"kind": "correspondence-broken", "correspondence": "L1:C06:verifprobe vs Model/Directive.v",
                            "call": x["call"], "go": x["go"],
                            "how": "printf '%s\\t%s\\n' | verifprobe   (go build -tags verif ./cmd/verifprobe)" % (x["call"][0], lib.go_quote(x["call"][1][0]))},
@@ -585,7 +594,7 @@ def main(run):
                               % (",".join(i["name"] for i in c["pkg"]["ifaces"]), c["iface"]["name"], c["method"]["name"]),
                        "sources": srcs, "generated": gen}, no_input=(v != 2))
     report_l01()
-    if not proof_ok and not mism and not l1_mism and not std_mism:
+    if not proof_ok and not mism and not [y for y in l1_mism if y["in_grammar"]] and not std_mism:
         run.proof_failure_violation()
 
     feats = feature_counters(cases, obs)
@@ -611,6 +620,9 @@ def main(run):
         "traces_validated_against_impl": len(cases),
         "programs": len(good),
         "l2_cases": len(cases), "l1_calls": n_l1, "l0_calls": n_std,
+        "l1_disagreements_in_grammar": len([y for y in l1_mism if y["in_grammar"]]),
+        "l1_disagreements_outside_grammar": {"count": len([y for y in l1_mism if not y["in_grammar"]]),
+                                             "examples": [y for y in l1_mism if not y["in_grammar"]][:3]},
         "known_defect_class_cases": {"generated": len(defect_cases), "compared_with_faithful_model": len(live)},
         "cases_skipped_because_path_arguments_are_escaped_now": skipped_slash,
         "features": feats,
